@@ -275,6 +275,19 @@ fn gen_cipher_list(t: &mut Tape, max: usize) -> Vec<u16> {
     v
 }
 
+/// what other protocols (and other framings of TLS itself) send first: a TLS port receives these, and to a record parser they are
+/// five header bytes like any others
+pub const FOREIGN_OPENERS: [&[u8]; 44] = [
+    b"GET / HTTP/1.1\r\nHost: example.com\r\n\r\n", b"GET /index.html HTTP/1.0\r\n\r\n", b"POST /api HTTP/1.1\r\n", b"HEAD / HTTP/1.1\r\n", b"PUT /x HTTP/1.1\r\n",
+    b"DELETE /x HTTP/1.1\r\n", b"OPTIONS * HTTP/1.1\r\n", b"CONNECT example.com:443 HTTP/1.1\r\n", b"PATCH /x HTTP/1.1\r\n", b"TRACE / HTTP/1.1\r\n",
+    b"PRI * HTTP/2.0\r\n\r\nSM\r\n\r\n", b"HTTP/1.1 400 Bad Request\r\n", b"HTTP/1.0 200 OK\r\n", b"SSH-2.0-OpenSSH_8.9\r\n", b"SSH-1.99-x\r\n",
+    b"EHLO mail.example.com\r\n", b"HELO example.com\r\n", b"STARTTLS\r\n", b"220 mail.example.com ESMTP\r\n", b"* OK IMAP4rev1 ready\r\n", b"+OK POP3 ready\r\n",
+    b"USER anonymous\r\n", b"QUIT\r\n", b"\x05\x01\x00", b"\x05\x02\x00\x02", b"\x04\x01\x01\xbb\x7f\x00\x00\x01", b"\x80\x2e\x01\x00\x02\x00\x15\x00\x00\x00\x10", b"\x80\x80\x01\x03\x01\x00\x57",
+    b"\x16\x03\x01\x02\x00\x01\x00\x01\xfc\x03\x03", b"\x16\xfe\xfd\x00\x00\x00\x00\x00\x00\x00\x00\x00\x2a", b"\x17\xfe\xfd\x00\x01", b"\x00\x00\x00\x00\x00\x00", b"\xff\xff\xff\xff\xff\xff",
+    b"<?xml version=\"1.0\"?>", b"<html><body>", b"{\"jsonrpc\":\"2.0\"}", b"\r\n\r\n\r\n", b"RTSP/1.0 200 OK\r\n", b"SIP/2.0 200 OK\r\n", b"\x03\x00\x00\x13\x0e\xe0\x00\x00\x00\x00\x00",
+    b"\x00\x00\x00\x85\xffSMBr", b"*1\r\n$4\r\nPING\r\n", b"\x13BitTorrent protocol", b"CNXN\x00\x00\x00\x01",
+];
+
 /// host names as they occur in server_name extensions, including the shapes a validating parser might treat specially
 pub const HOST_NAMES: [&str; 16] = ["example.com", "localhost", "192.168.0.1", "10.0.0.1", "::1", "2001:db8::1", "127.0.0.1", "xn--bcher-kva.example", "a.b.c.d.e.f.example", "example.com.", "EXAMPLE.COM", "1.2.3.4.5", "[::1]", "256.1.1.1", ".", "*.example.com"];
 
@@ -496,6 +509,69 @@ pub fn gen_cke_body(t: &mut Tape, budget: usize) -> Vec<u8> {
     e.buf
 }
 
+/// the body of a ServerKeyExchange as servers really send it (RFC 4492 / 5246 / 8422): ECDHE parameters with a named curve (or the
+/// explicit-prime form) and a point, or DHE parameters p, g, Ys, followed by a signature in the TLS 1.2 layout (two algorithm octets,
+/// length, value), in the earlier layout (length, value), or by nothing (anonymous key exchange); cut to the budget
+pub fn gen_ske_body(t: &mut Tape, budget: usize) -> Vec<u8> {
+    let mut e = Enc::new();
+    match t.weighted(&[5, 2, 1]) {
+        0 => {
+            let g = [0x0017u16, 0x0018, 0x0019, 0x001d, 0x001e][t.below(5)];
+            e.u8(3);
+            e.u16(if t.chance(230) { g } else { t.u16b() });
+            let n = natural_share_len(g).unwrap_or(65).min(255);
+            let mut pt = t.bytes(n);
+            if n % 2 == 1 {
+                pt[0] = 4;
+            }
+            e.vec(1, "ske.point", &pt);
+        }
+        1 => {
+            let n = t.pick(&[32usize, 64, 128, 256]);
+            let mut p = t.bytes(n);
+            p[0] |= 0x80;
+            p[n - 1] |= 1;
+            e.vec(2, "ske.p", &p);
+            e.vec(2, "ske.g", &[t.pick(&[2u8, 5])]);
+            e.vec(2, "ske.ys", &t.bytes(n));
+        }
+        _ => {
+            let ps = well_known_primes();
+            let p = ps[t.below(ps.len())].clone();
+            e.u8(1);
+            e.vec(1, "ske.prime", &p);
+            e.vec(1, "ske.a", &t.bytes(p.len()));
+            e.vec(1, "ske.b", &t.bytes(p.len()));
+            let mut base = t.bytes(2 * p.len() + 1);
+            base[0] = 4;
+            e.vec(1, "ske.base", &base);
+            e.vec(1, "ske.order", &t.bytes(p.len()));
+            e.vec(1, "ske.cofactor", &[1]);
+            let mut pt = t.bytes(2 * p.len() + 1);
+            pt[0] = 4;
+            e.vec(1, "ske.point", &pt);
+        }
+    }
+    match t.weighted(&[4, 4, 2]) {
+        0 => {
+            let (h, s) = gen_sig_alg(t);
+            e.u8(h);
+            e.u8(s);
+            let rsa_len = t.pick(&[128usize, 256]);
+            let sig = if s == 3 || t.bool() { gen_der_ecdsa_sig(t) } else { t.bytes(rsa_len) };
+            e.vec(2, "ske.sig", &sig);
+        }
+        1 => {
+            let raw_len = t.pick(&[36usize, 128, 256]);
+            let sig = if t.bool() { gen_der_ecdsa_sig(t) } else { t.bytes(raw_len) };
+            e.vec(2, "ske.sig", &sig);
+        }
+        _ => {}
+    }
+    e.buf.truncate(budget);
+    e.buf
+}
+
 /// an ECDSA signature value as it travels inside DigitallySigned: DER SEQUENCE of two INTEGERs, with the values a verifier must
 /// look at twice (zero, one, leading zero octet, 32 / 33 octets)
 pub fn gen_der_ecdsa_sig(t: &mut Tape) -> Vec<u8> {
@@ -654,7 +730,7 @@ pub fn gen_hs_kind(t: &mut Tape, kind: usize, budget: usize) -> MHs {
             }
             MHs::Certificate { chain }
         }
-        8 => MHs::ServerKeyExchange(t.blob(b)),
+        8 => MHs::ServerKeyExchange(if t.chance(110) { gen_ske_body(t, b) } else { t.blob(b) }),
         9 => {
             let nt = t.small(255);
             let types = t.bytes(nt);
